@@ -2,6 +2,7 @@
 import json, os
 from .. import core
 from ..core import Run, ToolError
+from . import cstr
 
 KM = ["NumericString", "PrintableString", "VisibleString", "IA5String", "BMPString", "UniversalString"]
 # slices: (name, MaxOperands, MaxStrLen, KMTypes, OtherTypes)
@@ -69,14 +70,18 @@ def check(tier):
         cases = two + rest[: 400000 - len(two)]
         run.cov["sampled_from_enumerated"] = True
     events = drive_and_validate(run, cases, shards=8 if tier == "quick" else 16)
-    run.cov["evaluations"] = len(cases)
+    # the single strings themselves: every spelling of the lexical item (doubled quotes, spacing, line breaks), X.680 12.14.1
+    cs_events = cstr.family(run, tier, "alphabet")
+    run.cov["evaluations"] = len(cases) + len(cs_events)
     run.cov["distinct_nontrivial"] = len({e["asn"].split("::=", 1)[1] for e in events if e["status"] == "ok" and e["has_from"]})
     run.cov["exhaustive"] = True
     run.cov["rule"] = ("TLC enumerates every FROM expression of the bounded algebra (operands: strings over the single-character atoms, "
                        "ranges between them, inclusion of a constrained string type; operators | ^ EXCEPT) x string type x SIZE "
                        "combination {none, before, after, serial} x {assignment, component}; slices: "
                        + "; ".join(f"{s[0]} (<= {s[1]} operands, strings <= {s[2]} chars, {s[3]}+{s[4]})" for s in SLICES[tier])
-                       + ". non-trivial = compiled Ok and a from(...) annotation was emitted; distinct by ASN.1 text")
+                       + ". non-trivial = compiled Ok and a from(...) annotation was emitted; distinct by ASN.1 text. "
+                       "Plus the cstring family (CString.tla): every spelling of a single FROM string of up to 4 / 5 symbols over graphic characters, "
+                       "spacing, line breaks (LF, CRLF) and doubled quotation marks; the annotation must name exactly the characters X.680 12.14.1 makes part of the string")
     step = max(1, len(events) // 6)
     run.cov["samples"] = [{"asn": e["asn"], "status": e["status"], "from": e["raw"], "atoms_covered": e["obs"]} for e in events[::step][:8]]
     run.assumptions = ["each string type's alphabet is abstracted to 9 ordered atoms (B c c B c c B c B); the harness maps atoms to "
@@ -89,6 +94,11 @@ def check(tier):
 def replay(payload):
     run = Run("C15", "quick")
     ev = payload["event"]
+    if ev.get("ev") == "cstr":
+        cstr.replay_one(run, ev, "alphabet")
+        for what, e in run.violations:
+            print("MISMATCH:", what)
+        return 1 if run.violations else 0
     case = {k: ev[k] for k in ("os", "ps", "ty", "sizepos", "pos")}
     events = drive_and_validate(run, [case], shards=1)
     print("input:   ", events[0]["asn"])
